@@ -49,7 +49,7 @@ def O0 : Oracle where
   yaml s := if s = "null" then some .null else if s = "1" then some (.int 1) else if s = "[1]" then some (.list [.int 1])
             else some (.str s)
   loadAny s := some (.str s)
-  bigFlt _ := "?"
+  bigFlt _ := some "?"
   intOf s := if s = "1" then some 1 else if s = "01" then some 1 else .none
 
 /-! ### soundness: accepted values conform
@@ -226,7 +226,7 @@ theorem C02_union_perm_str (O : Oracle) (s : String) {ts ts' : List Ty} (h : ts.
 def O1 : Oracle where
   yaml s := if s = "[1]" then some (.list [.int 1]) else some (.str s)
   loadAny s := some (.str s)
-  bigFlt _ := "?"
+  bigFlt _ := some "?"
   intOf _ := .none
 
 /-- counterexample: an Enum with a member named `[1]`; `Union[E, int]` accepts the text `[1]`, `E` alone and
